@@ -277,6 +277,12 @@ def run(pid, tier, seed):
                 jobs.append((keys, {"S4_VERIF_SIGINT": trig, "S4_VERIF_PLAN_TIMEOUT_MS": "700"},
                              [("sig", "HFlag"), (lastw, "WStart"), (lastw, "TempRegister"), ("main", "Recv"),
                               ("main", "MainExit")], None, "plan:create-after-handler-pass"))
+            # turnstile: the last worker has entered decompress_to_ntf but not yet taken the NAMED_TEMP_FILES lock when
+            # the signal arrives; it gets the lock only after the handler AND main's own removal pass are over, and main
+            # exits after that (a file created that late must not exist: nobody is left to remove it)
+            jobs.append((keys, {"S4_VERIF_SIGINT": "w0:SendStart:0", "S4_VERIF_PLAN_TIMEOUT_MS": "700"},
+                         [(lastw, "WStart"), ("sig", "HFlag"), ("main", "Recv"), ("main", "SweepDone"), (lastw, "TempLock"), (lastw, "TempRegister"),
+                          ("main", "MainExit")], None, "plan:lock-after-main-sweep"))
             # a source that finished earlier leaves a stale path at the head of NAMED_TEMP_FILES: the handler must
             # still remove the files listed after it.  The first worker runs to its end before the last one starts;
             # SIGINT once the last one has listed its file; that worker is held after its FileInfo so that main
@@ -303,7 +309,7 @@ def run(pid, tier, seed):
                     continue
                 # message counts of the real sources differ from the abstract ones: keep the cleanup-relevant part of the
                 # order (temp create / register, handler steps, main exit) and the first sends
-                keep = [e for e in plan if e[1] in ("TempCreate", "TempRegister", "HCleared", "HRemoved", "HFlag", "MainExit")]
+                keep = [e for e in plan if e[1] in ("TempLock", "TempCreate", "TempRegister", "HCleared", "HRemoved", "HFlag", "SweepDone", "MainExit")]
                 sthread, spoint, sk = sigspec.split(":")
                 if spoint not in ("TempCreate", "TempRegister") and int(sk) > 0:
                     continue
